@@ -80,3 +80,14 @@ pub proof fn lemma_asc_roundtrip(p: u8, f: u8, c: u8)
     assert((((((p << 3) | (f >> 1)) as u8) & 7) << 1) | ((((f & 1) << 7) | (c << 3)) as u8 >> 7) == f) by(bit_vector) requires p < 31, f < 15, c < 16;
     assert((((((f & 1) << 7) | (c << 3)) as u8) >> 3) & 0xf == c) by(bit_vector) requires f < 15, c < 16;
 }
+
+/// stsd (8.5.2) whose body starts at q: FullBox, entry_count(4), then the first sample entry (the only one this crate reads), at q + 8
+pub open spec fn stsd_at(d: Seq<u8>, q: int, b: StsdBox) -> bool {
+    let p = q + 8;
+    let n = child_name(d, p);
+    &&& b.version == d[q] && b.flags == be24(d, q + 1)
+    &&& (b.avc1 is Some <==> n == BoxType::Avc1Box) && (b.hev1 is Some <==> n == BoxType::Hev1Box) && (b.vp09 is Some <==> n == BoxType::Vp09Box)
+    &&& (b.mp4a is Some <==> n == BoxType::Mp4aBox) && (b.tx3g is Some <==> n == BoxType::Tx3gBox)
+    &&& (b.avc1 matches Some(x) ==> avc1_at(d, child_q(d, p), child_size(d, p), x))
+    &&& (b.mp4a matches Some(x) ==> mp4a_at(d, child_q(d, p), child_size(d, p), x))
+}
